@@ -7,11 +7,12 @@ PID = "C06"
 LEAN_MODULE = "NiVerif.Props.C06"
 NAMESPACE = "Props.C06"
 DRIVER = "drivers/C06.lean"
-GEN_MODULES = ["Port"]
+GEN_MODULES = ["Port", "PortLine"]
 THEOREMS = ["lt_two_pow_bitLen", "filter_range_succ", "colLoop_spec", "columns_spec", "negative_mask_ValueError",
             "signal_count_popcount", "setBits_lt", "pick_little", "pick_big", "line_data_partial", "setBits_full",
             "line_data_full", "mask_too_wide_rejected", "signal_bit", "port_width_of_mask",
-            "gen_columns_eq_model", "gen_columns_spec", "gen_negative_mask_ValueError"]
+            "gen_columns_eq_model", "gen_columns_spec", "gen_negative_mask_ValueError",
+            "gen_port_to_line_eq_model"]
 RULE = ("8-bit ports: every sample value x every mask 0..255 (and masks beyond the width) x both bit orders, "
         "exhaustively; 16-bit: all masks on a value sample (all 65 536 values on selected masks in thorough); 32-bit: "
         "sparse/high-bit masks; inputs as list, native, byte-swapped ('>u2','>u4'), strided and read-only arrays, "
